@@ -121,6 +121,25 @@ def fp_case(a):
                                              nat(a["first"]), nat(a["last"]), fol, dfa), None
 
 
+QUANT_V = """(* GENERATED: quantifyNode - the tree of X followed by a quantifier vs the model applied to the tree of X *)
+From Coq Require Import List Bool NArith.
+From Verif Require Import Reg.Followpos Reg.FollowposQuant Reg.MaxMunch.
+Import ListNotations.
+Local Open Scope N_scope.
+Definition agrees (c : node * quant * node) : bool := let '(x, q, xq) := c in quantified_as_modelled x q xq.
+Definition cases : list (node * quant * node) := [
+%s
+].
+Definition M := Eval vm_compute in mismatches agrees 0 cases.
+Print M.
+"""
+
+QUANT_ATOMS = ["a", "(ab)", "(a|b)", "[ab]", "(a*)", "(a?)", "(a?b)", "((a|b)c)", "\\+", "(a{2})", "(a|b|c)"]
+QUANT_FORMS = [("?", "QOpt"), ("*", "QStar"), ("+", "QPlus"), ("{0}", "QRange 0 (Some 0%nat)"), ("{1}", "QRange 1 (Some 1%nat)"),
+               ("{3}", "QRange 3 (Some 3%nat)"), ("{0,}", "QRange 0 None"), ("{2,}", "QRange 2 None"), ("{0,1}", "QRange 0 (Some 1%nat)"),
+               ("{0,3}", "QRange 0 (Some 3%nat)"), ("{1,2}", "QRange 1 (Some 2%nat)"), ("{2,5}", "QRange 2 (Some 5%nat)")]
+
+
 def patterns_for(tier, rng):
     pats = R.corpus(PROP) + NULLABLE_SHAPES + PREFIX_ALTERNATIONS + followpos_shapes(tier) + quantified_nullable_groups(tier) + loops_over_nullable_bodies(tier) + list(R.EVERY_CONSTRUCT)
     pats += R.small_exhaustive() if tier != "quick" else R.small_exhaustive()[::3]
@@ -146,7 +165,8 @@ def check(tier):
         return rep.finish()
     ok, log = C.coq_make(["theories/Props/C10.vo"])
     for t in ["three_way_agreement", "three_way_agreement_guarded", "position_automaton_examples", "position_automaton_accepts_exactly_the_language",
-              "tree_language_is_its_expression", "checked_automaton_is_the_position_automaton_of_its_tree", "followpos_example"]:
+              "tree_language_is_its_expression", "checked_automaton_is_the_position_automaton_of_its_tree", "followpos_example",
+              "quantified_tree_denotes_the_documented_repetition", "quantify_example"]:
         rep.obligation("Props/C10.v: " + t, ok)
     rep.cov["print_assumptions"] = "Closed under the global context x%d" % log.count("Closed under the global context") if ok else "n/a"
 
@@ -202,6 +222,26 @@ def check(tier):
             fp_err = outc
             break
         fp_bad.extend(o + x for x in m)
+    # ---- quantifyNode: tree(X q) == quantify(tree(X), q) for every atom and every quantifier form
+    q_reqs = [{"op": "regex_ast", "pattern": x} for x in QUANT_ATOMS] + [{"op": "regex_ast", "pattern": x + q} for x in QUANT_ATOMS for q, _ in QUANT_FORMS]
+    q_res = C.hook_map(q_reqs, timeout_each=10)
+    tree_of = {}
+    for rq, r in zip(q_reqs, q_res):
+        a = r.get("ast", {})
+        if r.get("outcome") == "ok" and a.get("outcome") == "ok" and a["tree"][0] == "cat" and len(a["tree"]) == 3:
+            tree_of[rq["pattern"]] = a["tree"][1]
+    q_cases, q_meta = [], []
+    for x in QUANT_ATOMS:
+        for q, qt in QUANT_FORMS:
+            if x in tree_of and x + q in tree_of:
+                q_cases.append("(%s, %s, %s)" % (fp_node(tree_of[x]), qt, fp_node(tree_of[x + q])))
+                q_meta.append(x + q)
+    qpath = os.path.join(C.GEN, "cases_C10q.v")
+    with open(qpath, "w") as f:
+        f.write(QUANT_V % ";\n".join(q_cases))
+    (qok, qout), = C.coqc_many([qpath], 300)
+    q_bad = C.parse_mismatches(qout) if qok else None
+    dist["quantified_trees"] = len(q_cases)
     dist["direct_route_trees"] = len(fp_cases)
     dist["direct_route_trees_undecided_slow"] = fp_slow
     bad, out = R.run_case_file("cases_C10", cases)
@@ -238,6 +278,18 @@ def check(tier):
     else:
         rep.obligation("direct route: tree numbered left to right, nullable / firstpos / lastpos / followpos == model, automaton == position automaton "
                        "of the tree (certified) on %d trees" % len(fp_cases), not fp_bad and not fp_shape)
+    if q_bad is None:
+        rep.obligation("quantifier cases compile", False)
+        rep.violation("cases", {"theorem": "gen/cases_C10q.v does not compile", "log": qout[-3000:]}, no_input=True)
+    else:
+        rep.obligation("quantifyNode: the tree of X followed by a quantifier is the model's quantify of the tree of X (%d atom x quantifier pairs of %d)"
+                       % (len(q_cases), len(QUANT_ATOMS) * len(QUANT_FORMS)), not q_bad and len(q_cases) == len(QUANT_ATOMS) * len(QUANT_FORMS))
+        for i in (q_bad or [])[:2]:
+            rep.failure("quantify", {"quantify"}, {"pattern": q_meta[i], "what_fails": "the tree built for the quantified atom is not the one the model of quantifyNode builds",
+                                                   "tree": tree_of.get(q_meta[i])}, no_input=True)
+        if len(q_cases) != len(QUANT_ATOMS) * len(QUANT_FORMS) and not q_bad:
+            missing = [x + q for x in QUANT_ATOMS for q, _ in QUANT_FORMS if x + q not in tree_of or x not in tree_of]
+            rep.failure("quantify", {"quantify-rejected"}, {"pattern": missing[0], "what_fails": "a documented quantifier form is not accepted by the direct route"})
     for p, why in fp_shape[:2]:
         rep.failure("followpos", {"followpos-shape"}, {"pattern": p, "what_fails": why})
     for i in fp_bad[:3]:
